@@ -27,6 +27,7 @@ import (
 const (
 	c28P = "10.2.0.1:6379"
 	c28R = "10.2.0.2:6379"
+	c28P2 = "10.2.0.3:6379" // the primary a -REDIRECT reply points to
 	c28S = "10.2.0.9:26379"
 )
 
@@ -115,6 +116,8 @@ type c28env struct {
 	// retry without end, so beyond c28runaway such calls the connection answers a plain (non-retryable) error
 	// reply, which ends the client's loop, and the case is reported.
 	refusedN int
+	// redirectOnce: the next user command is answered "-REDIRECT <other address>" (standalone-redirected mode, warm-up)
+	redirectOnce bool
 }
 
 const c28runaway = 200
@@ -189,6 +192,11 @@ func (e *c28env) user(argv []string) RedisResult {
 		}
 	}
 	e.mu.Lock()
+	if e.redirectOnce {
+		e.redirectOnce = false
+		e.mu.Unlock()
+		return NewResult(strmsg(typeSimpleErr, "REDIRECT "+c28P2), nil)
+	}
 	e.counts[tag]++
 	if tag != e.faultTag {
 		moved := tag == e.movedTag && e.movedN == 0
@@ -283,7 +291,7 @@ type c28sys struct {
 }
 
 func c28build(c *c28case) (*c28sys, error) {
-	e := &c28env{mode: c.Mode}
+	e := &c28env{mode: c.Mode, counts: map[string]int{}}
 	opt := &ClientOption{DisableRetry: c.Disable, InitAddress: []string{c28P}}
 	base := c28delay(c.Delay)
 	rt := newRetryer(func(a int, cmd Completed, err error) time.Duration {
@@ -304,6 +312,23 @@ func c28build(c *c28case) (*c28sys, error) {
 		var sc *standalone
 		if sc, err = newStandaloneClient(opt, e.connFn, rt); err == nil {
 			cl = sc
+		}
+	case "standalone-redirected":
+		// EnableRedirect: the configured primary answers the first command with -REDIRECT, the client swaps in a new
+		// primary connection; every case then runs against that new primary
+		opt.Standalone.EnableRedirect = true
+		var sc *standalone
+		if sc, err = newStandaloneClient(opt, e.connFn, rt); err == nil {
+			cl = sc
+			e.redirectOnce = true
+			if werr := sc.Do(context.Background(), sc.B().Get().Key("{t}warm").Build()).Error(); werr != nil {
+				err = fmt.Errorf("warm-up through the redirect failed: %v", werr)
+			}
+			e.mu.Lock()
+			if e.redirectOnce {
+				err = errors.New("warm-up did not consume the redirect")
+			}
+			e.mu.Unlock()
 		}
 	case "standalone-replica":
 		opt.Standalone.ReplicaAddress = []string{c28R}
@@ -572,7 +597,7 @@ func c28json(v any) string {
 
 func TestVerif_C28(t *testing.T) {
 	vrun.Main(t, "C28", func(r *vrun.Run) {
-		r.Rule = "modes {single, standalone, standalone with a replica and SendToReplicas=true, sentinel, cluster (one shard)} over mockConn fake nodes x API shapes {Do: r=GET, w=SET, W=SET.ToRetryable(); DoCache: GET.Cache(); " +
+		r.Rule = "modes {single, standalone, standalone with EnableRedirect after a -REDIRECT reply has swapped in a new primary, standalone with a replica and SendToReplicas=true, sentinel, cluster (one shard)} over mockConn fake nodes x API shapes {Do: r=GET, w=SET, W=SET.ToRetryable(); DoCache: GET.Cache(); " +
 			"Receive: SUBSCRIBE; DoMulti: r, w, W, rr, rw, wr, Wr, rW with the scripted replies on each position; cluster also rM, WM, wM where M is a GET answered MOVED once} x every reply script of length 3 over {T transport error, L LOADING, A TRYAGAIN, D CLUSTERDOWN, E -ERR, N nil, O ok} (then ok) x " +
 			"RetryDelay {always 0, always -1, 0 then -1} x context cancelled inside the first attempt x client closed inside the first attempt x DisableRetry. " +
 			"Oracle: reference policy from the statement = maximum number of times the faulted command may be handed to a connection; more is a violation, fewer is recorded as an outcome; other commands of a batch are re-sent only with a legitimately retried " +
@@ -628,7 +653,7 @@ func TestVerif_C28(t *testing.T) {
 		pool := map[string]*c28sys{}
 		item := 0
 		t0 := time.Now()
-		for _, mode := range []string{"single", "standalone", "standalone-replica", "sentinel", "cluster"} {
+		for _, mode := range []string{"single", "standalone", "standalone-redirected", "standalone-replica", "sentinel", "cluster"} {
 			if mode != "single" {
 				r.Note(fmt.Sprintf("elapsed before mode %s: %.1fs", mode, time.Since(t0).Seconds()))
 			}
